@@ -515,6 +515,8 @@ class Verifier:
                 r = z3.Const("r!fr", Ref(cls))
                 for fld in self.schema.fields.get(cls, {}):
                     allowed.add("%s.%s" % (cls, fld))
+                    if "%s.%s" % (cls, fld) in K.modifies:
+                        continue  # declared as written on existing objects too: the contract must describe it
                     if (cls, fld) in st.heap and (cls, fld) in pre_state.heap and not z3.eq(st.heap[(cls, fld)], pre_state.heap[(cls, fld)]):
                         self.add("frame", "old-%s.%s-unchanged" % (cls, fld), st,
                                  z3.ForAll([r], z3.Implies(z3.Select(old_alive, r),
@@ -550,6 +552,7 @@ class Verifier:
                 if r == z3.unknown:
                     status = "undecided"
                     note = reason
+                    break  # one undischarged path decides the status of the obligation
             out["results"][oid] = {"status": status, "ms": round(ms, 1), "paths": len(obs), "backend": "z3-%s" % z3.get_version_string(),
                                    "model": model_txt, "note": note}
 
